@@ -124,7 +124,7 @@ func VerifC14Handover(h *verifrt.H) {
 // caller's done is closed, nobody else's channels change.
 func VerifC14Queue(h *verifrt.H) {
 	n := h.Len("qlen", 0, h.Param("maxQueue", 4))
-	q := newQueue()
+	q := New().(*lock).getQueue("k") // built the way the package builds it
 	ids := []string{"a", "b", "c", "d", "e"}
 	for i := 0; i < n; i++ {
 		c := &caller{id: ids[i], ready: make(chan struct{}), done: make(chan struct{})}
